@@ -217,6 +217,28 @@ impl ProgGen {
             items.push(Item::Const { dots: 0, name: "kt".to_string(), e, noemit: false });
         }
 
+        // v2: a constant whose SIZE (and sometimes only its size) depends on an address, emitted by `#d` in front
+        // of everything: `ks = g > K ? 0x00 : 0x0000` / `#d ks`
+        if crate::engine::gen_version() >= 2 && self.family_bias && !names.globals.is_empty() && t.chance(1, 5) {
+            let g = E::Var(t.pick(&names.globals).clone());
+            let k = lit_of(*t.pick(&[1u64, 2, 3, 4, 6, 8, 12, 16]));
+            let v1 = t.draw(3) as u64;
+            let v2 = if t.chance(2, 3) { v1 } else { t.draw(3) as u64 };
+            let (s1, s2) = *t.pick(&[(8usize, 16usize), (16, 8), (4, 8), (8, 8)]);
+            let cond = E::Bin(*t.pick(&[BinOp::Gt, BinOp::Lt, BinOp::Ge]), Box::new(g), Box::new(k));
+            names.consts.push("ks".to_string());
+            let decl = Item::Const { dots: 0, name: "ks".to_string(), e: E::Tern(Box::new(cond), Box::new(sized_lit(v1, s1)), Box::new(sized_lit(v2, s2))), noemit: false };
+            let user = Item::Data { width: None, elems: vec![E::Var("ks".to_string())] };
+            // the reader usually stands BEFORE the declaration (it then sees the value of the previous pass)
+            if t.chance(3, 4) {
+                items.push(user);
+                items.push(decl);
+            } else {
+                items.push(decl);
+                items.push(user);
+            }
+        }
+
         // banks
         let mut banks: Vec<BankDef> = Vec::new();
         if self.allow_banks && t.chance(2, 5) {
